@@ -95,7 +95,24 @@ def gen_spec(rng, max_scalars=30, max_lmis=4, lmi_kind=None):
     for _ in range(n_lmi):
         blocks[rng.randrange(len(blocks))]["psd"].append(gen_matrix(rng, npts, nf, lmi_kind))
     d = rng.choice([1, 2, 3])
-    return dict(np=npts, nf=nf, metrics=metrics, pep=blocks[0], funcs=blocks[1:],
+    # the very same Constraint / PSDMatrix OBJECT registered several times (twice in one list, or in two lists)
+    dups = []
+    if rng.random() < 0.3:
+        for _ in range(rng.choice([1, 1, 2])):
+            src = [(b, i) for b, blk in enumerate(blocks) for i in range(len(blk["cons"]))]
+            if src and rng.random() < 0.7:
+                b, i = rng.choice(src)
+                dups.append(["cons", b, i, rng.randrange(len(blocks))])
+            elif blocks[0]["psd"]:
+                dups.append(["psd", rng.randrange(len(blocks[0]["psd"]))])
+    # a function whose CLASS constraints contain an LMI that is not symmetric as written
+    classes = []
+    if rng.random() < 0.2:
+        classes.append(dict(cls=rng.choice(["SymmetricLinearOperator", "SmoothStronglyConvexQuadraticFunction",
+                                            "SkewSymmetricLinearOperator"]),
+                            L=rng.choice([1.0, 2.0]), mu=rng.choice([0.0, 0.25, 0.5]),
+                            pts=[rng.randrange(npts) for _ in range(rng.choice([1, 2, 2]))]))
+    return dict(np=npts, nf=nf, metrics=metrics, pep=blocks[0], funcs=blocks[1:], dups=dups, classes=classes,
                 pts=[[rng.randint(-2, 2) for _ in range(npts)] for _ in range(d)],
                 fvals=[rng.randint(-8, 8) for _ in range(nf + 1)],
                 dual_seed=rng.randrange(1 << 30))
@@ -156,16 +173,38 @@ def build_pep(spec):
     X = [Expression() for _ in range(spec["nf"])]
     for e in spec["metrics"]:
         pep.set_performance_metric(build_expr(e, P, X))
-    for c in spec["pep"]["cons"]:
-        pep.add_constraint(build_cons(c, P, X))
+    cons_objs = {}
+    for i, c in enumerate(spec["pep"]["cons"]):
+        cons_objs[(0, i)] = build_cons(c, P, X)
+        pep.add_constraint(cons_objs[(0, i)])
     for m in spec["pep"]["psd"]:
         pep.add_psd_matrix(build_matrix(m, P, X))
-    for blk in spec["funcs"]:
+    funcs = []
+    for b, blk in enumerate(spec["funcs"]):
         f = pep.declare_function(ConvexFunction)
-        for c in blk["cons"]:
-            f.add_constraint(build_cons(c, P, X))
+        funcs.append(f)
+        for i, c in enumerate(blk["cons"]):
+            cons_objs[(b + 1, i)] = build_cons(c, P, X)
+            f.add_constraint(cons_objs[(b + 1, i)])
         for m in blk["psd"]:
             f.add_psd_matrix(build_matrix(m, P, X))
+    for c in spec.get("classes", []):
+        import PEPit.functions as PF
+        import PEPit.operators as PO
+        cls = getattr(PO, c["cls"], None) or getattr(PF, c["cls"])
+        kw = dict(L=c["L"]) if c["cls"] == "SkewSymmetricLinearOperator" else dict(L=c["L"], mu=c["mu"])
+        g = pep.declare_function(cls, **kw)
+        for i in c["pts"]:
+            g.gradient(P[i])
+    for d in spec.get("dups", []):
+        if d[0] == "cons":
+            obj = cons_objs[(d[1], d[2])]
+            if d[3] == 0:
+                pep.set_initial_condition(obj)
+            else:
+                funcs[d[3] - 1].add_constraint(obj)
+        else:
+            pep.add_psd_matrix(pep.list_of_psd[d[1]])      # the same PSDMatrix object once more
     return pep, P, X
 
 
@@ -233,9 +272,24 @@ def synthetic_duals(prob, seed, solve_index):
     return out
 
 
+def full_pts(spec, n):
+    """coordinates of the n leaf points: the spec's, completed deterministically for the leaf points created by class
+    constraints / oracles"""
+    d = len(spec["pts"])
+    out = np.zeros((d, n))
+    for r in range(d):
+        for c in range(n):
+            out[r, c] = spec["pts"][r][c] if c < len(spec["pts"][r]) else ((3 * r + 2 * c) % 5) - 2
+    return out
+
+
+def full_fvals(spec, n):
+    return np.array([spec["fvals"][k] if k < len(spec["fvals"]) else ((5 * k) % 17) - 8 for k in range(n)], dtype=float) / 4.0
+
+
 def tagged_point(spec, wrapper):
     """(G, F, [M_k]) rational values given to the cvxpy variables when rows are evaluated"""
-    pts = np.array(spec["pts"], dtype=float)
+    pts = full_pts(spec, wrapper.G.shape[0])
     G = pts.T @ pts
     nF = wrapper.F.shape[0]
     F = np.array([(3 * k + 1) / 4.0 for k in range(nF)])
@@ -302,6 +356,22 @@ def coq_dval(v):
     if isinstance(v, np.ndarray) and v.ndim == 2:
         return "VM %s" % coq_qmat(v)
     return "VS %s" % coq_q(float(v))
+
+
+def object_ids(wrapper):
+    """for each position of the tracked list, the position of the first occurrence of the object sitting there"""
+    first = {}
+    out = []
+    for k, o in enumerate(wrapper._list_of_constraints_sent_to_solver):
+        first.setdefault(id(o), k)
+        out.append(first[id(o)])
+    return out
+
+
+def dump_exposed(o):
+    """[eval_dual(), entries_dual_variable_value] as the object shows them"""
+    u = getattr(o, "entries_dual_variable_value", None)
+    return [dump_dval(o.eval_dual()), [] if u is None else [[[Q(float(x)) for x in row] for row in np.array(u)]]]
 
 
 def sent_items(wrapper, pid, xid):
@@ -392,23 +462,44 @@ def solvable_specs(rng, n, asym_every=6):
         lmi = rng.choice(["none", "sym", "sym", "sym3", "none"])
         if asym_every and k % asym_every == asym_every - 1:
             lmi = "asym"
-        out.append(dict(family="gd", L=rng.choice([1.0, 2.0, 4.0]), mu=rng.choice([0.0, 0.125, 0.25, 0.5]),
+        out.append(dict(family=rng.choice(["gd", "gd", "gd", "symlin", "quad"]),
+                        L=rng.choice([1.0, 2.0, 4.0]), mu=rng.choice([0.0, 0.125, 0.25, 0.5]),
                         n=rng.choice([1, 1, 2, 3]), gamma_num=rng.choice([2, 3, 4, 6]), lmi=lmi,
                         metric=rng.choice(["dist", "fval"]), second_metric=rng.random() < 0.3,
                         fun_lmi=rng.random() < 0.3, equality=rng.random() < 0.3))
     return out
 
 
-F_C01A_TRIGGER = dict(family="gd", L=1.0, mu=0.1, n=1, gamma_num=4, lmi="asym", metric="dist", second_metric=False,
-                      fun_lmi=False, equality=False)
+
+
+ASYM_TRIGGER = dict(family="gd", L=1.0, mu=0.1, n=1, gamma_num=4, lmi="asym", metric="dist", second_metric=False,
+                    fun_lmi=False, equality=False)
+SYMLIN_TIGHT = dict(family="symlin", L=1.0, mu=0.25, n=1, gamma_num=4, lmi="none", metric="dist", second_metric=False,
+                    fun_lmi=False, equality=False)
+QUAD_GD = dict(family="quad", L=1.0, mu=0.25, n=2, gamma_num=4, lmi="none", metric="fval", second_metric=False,
+               fun_lmi=False, equality=False)
 
 
 def build_solvable(spec):
     from PEPit import PEP, Expression
-    from PEPit.functions import SmoothStronglyConvexFunction
+    from PEPit.functions import SmoothStronglyConvexFunction, SmoothStronglyConvexQuadraticFunction
+    from PEPit.operators import SymmetricLinearOperator
     pep = PEP()
     L = spec["L"]
-    f = pep.declare_function(SmoothStronglyConvexFunction, L=L, mu=min(spec["mu"], L / 2))
+    family = spec.get("family", "gd")
+    if family == "symlin":
+        # x_{k+1} = x_k - gamma A x_k with mu <= A <= L symmetric (class LMI not symmetric as written); x* = 0
+        A = pep.declare_function(SymmetricLinearOperator, L=L, mu=min(spec["mu"], L / 2))
+        x0 = pep.set_initial_point()
+        pep.set_initial_condition(x0 ** 2 <= 1)
+        gamma = spec["gamma_num"] / (4.0 * L)
+        x = x0
+        for _ in range(spec["n"]):
+            x = x - gamma * A.gradient(x)
+        pep.set_performance_metric(x ** 2)
+        return pep
+    cls = SmoothStronglyConvexQuadraticFunction if family == "quad" else SmoothStronglyConvexFunction
+    f = pep.declare_function(cls, L=L, mu=min(spec["mu"], L / 2))
     xs = f.stationary_point()
     fs = f(xs)
     x0 = pep.set_initial_point()
@@ -467,6 +558,7 @@ def measure_certificate(pep, returned):
     const = c_o
     min_ineq, min_eig = np.inf, np.min(np.linalg.eigvalsh((np.array(pep.residual) + np.array(pep.residual).T) / 2))
     asym = False
+    sym_gap = 0.0
     for o in tracked:
         if isinstance(o, Constraint):
             lam = float(o.eval_dual())
@@ -479,13 +571,16 @@ def measure_certificate(pep, returned):
         else:
             S = np.array(o.eval_dual(), dtype=float)
             min_eig = min(min_eig, np.min(np.linalg.eigvalsh((S + S.T) / 2)))
+            U = getattr(o, "entries_dual_variable_value", None)
+            U = S if U is None else np.array(U, dtype=float)     # what the object shows for its entries
+            sym_gap = max(sym_gap, float(np.max(np.abs((S + S.T) / 2 - (U + U.T) / 2))))
             n, m = o.shape
             for i in range(n):
                 for j in range(m):
                     Gw, Fw, c = expression_to_matrices(o[i, j])
-                    rF += S[i, j] * Fw
-                    rG += S[i, j] * Gw
-                    const += S[i, j] * c
+                    rF += U[i, j] * Fw
+                    rG += U[i, j] * Gw
+                    const += U[i, j] * c
                     if i < j:
                         Gw2, Fw2, c2 = expression_to_matrices(o[j, i])
                         if not (np.array_equal(Gw, Gw2) and np.array_equal(Fw, Fw2) and c == c2):
@@ -525,7 +620,7 @@ def measure_certificate(pep, returned):
     kkt = max(np.max(np.abs(kF)) if kF.size else 0.0, np.max(np.abs(kG)) if kG.size else 0.0, kM)
     return dict(identity_residual=float(ident_res), tau_ours=float(tau_ours), returned=float(returned),
                 kkt_residual=float(kkt), min_inequality_dual=float(min_ineq if min_ineq < np.inf else 0.0),
-                min_eigenvalue=float(min_eig), asymmetric_lmi=bool(asym), primal=float(pep.objective.eval()),
+                min_eigenvalue=float(min_eig), asymmetric_lmi=bool(asym), dual_matrix_vs_sym_entries=float(sym_gap), primal=float(pep.objective.eval()),
                 n_constraints=len(tracked))
 
 
